@@ -143,7 +143,33 @@ func c05Body(depth int) mc.Body {
 				m = append(m, c05Req{fmt.Sprintf("node points on A with NaN at position %d", pos), "nan-node-point", false, "A", "", mk(pos)})
 				m = append(m, c05Req{fmt.Sprintf("node points on the root with NaN at position %d", pos), "nan-node-point", false, root, "", mk(pos)})
 			}
+			// NaN shadowed inside the batch by another point of the same identity (newer, older, key alias)
+			dup := func(nanFirst bool, newer bool, alias bool) data.Points {
+				t1, t2 := tick(), tick()
+				k2 := ""
+				if alias {
+					k2 = "0"
+				}
+				a := data.Point{Type: "dv", Value: nan, Time: t1}
+				b := data.Point{Type: "dv", Key: k2, Value: 5, Time: t2}
+				if !newer {
+					a.Time, b.Time = t2, t1
+				}
+				if nanFirst {
+					return data.Points{a, b}
+				}
+				return data.Points{b, a}
+			}
+			for _, nf := range []bool{true, false} {
+				for _, nw := range []bool{true, false} {
+					for _, al := range []bool{false, true} {
+						m = append(m, c05Req{fmt.Sprintf("node points on A: NaN and a second point of the same identity (NaN first=%v, other newer=%v, key alias=%v)", nf, nw, al), "nan-node-point", false, "A", "", dup(nf, nw, al)})
+					}
+				}
+			}
 			for e := range g.edges {
+				m = append(m, c05Req{fmt.Sprintf("edge points on %s>%s: NaN shadowed by a newer point of the same identity", e[0], e[1]), "nan-edge-point", true, e[1], e[0], dup(true, true, false)})
+				m = append(m, c05Req{fmt.Sprintf("edge points on %s>%s: NaN after an older point of the same identity", e[0], e[1]), "nan-edge-point", true, e[1], e[0], dup(false, false, false)})
 				for pos := 0; pos < 3; pos++ {
 					m = append(m, c05Req{fmt.Sprintf("edge points on %s>%s with NaN at position %d", e[0], e[1], pos), "nan-edge-point", true, e[1], e[0], mk(pos)})
 				}
